@@ -2769,6 +2769,26 @@ impl Gen {
                     self.sim_fetch(k, true);
                     ops.push(Op::TryFetchMutById(ty, k));
                 }
+            } else if self.live.is_empty() && self.rng.chance(6) {
+                // three dynamic ids of one type present, one of them removed, then every slot looked at
+                // and used again: the other slots are where and what they were
+                let ty = self.ty();
+                for dy in 0..NDY {
+                    if !self.present.contains(&(ty, dy)) {
+                        self.present.insert((ty, dy));
+                        ops.push(Op::InsertById(ty, (ty, dy), self.tok(ty)));
+                    }
+                }
+                let gone = (ty, self.rng.below(NDY));
+                if self.present.remove(&gone) {
+                    self.held += 1;
+                }
+                ops.push(Op::RemoveById(ty, gone));
+                for dy in 0..NDY {
+                    ops.push(Op::HasRaw((ty, dy)));
+                    self.sim_fetch((ty, dy), false);
+                    ops.push(Op::TryFetchById(ty, (ty, dy)));
+                }
             } else if self.live.is_empty() {
                 if self.rng.chance(40) {
                     ops.push(self.mut_op());
